@@ -60,3 +60,39 @@ Example C04_ex :
   /\ clip_eval_ok 1 1 [10]%nat [] [] = false.
 Proof. vm_compute. repeat split. Qed.
 Print Assumptions C04_ex.
+
+(* ---- the validators as READ FROM THE SOURCE (Gen/Source.v is regenerated from
+   soundevent/data/clip_evaluations.py, annotation_projects.py and clips.py on every run; objects are
+   represented by their uuid): the same declarative statements as above, about the code as written. ---- *)
+From Coq Require Import ZArith List.
+From SE Require Gen.Source Gen.SrcRelational.
+From SE Require Import Gen.Prelude.
+Import SrcRelational.
+
+Theorem C04_src_clip_eval_iff : forall ac pc anns preds ms,
+  src_clip_eval ac pc anns preds ms = Ok tt <->
+  ac = pc /\ NoDup (ztargets ms) /\ NoDup (zsources ms) /\
+  (forall x, In x (ztargets ms) <-> In x anns) /\ (forall x, In x (zsources ms) <-> In x preds).
+Proof. exact src_clip_eval_iff. Qed.
+Print Assumptions C04_src_clip_eval_iff.
+
+Theorem C04_src_clip_eval_err : forall ac pc anns preds ms e, src_clip_eval ac pc anns preds ms = Err e -> e = EValue.
+Proof. exact src_clip_eval_err. Qed.
+Print Assumptions C04_src_clip_eval_err.
+
+Theorem C04_src_project_iff : forall tasks anns,
+  Source.AnnotationProject__annotations_are_part_of_the_project tasks anns = Ok tt <->
+  (forall c, In c (map fst anns) -> In c tasks).
+Proof. exact src_project_iff. Qed.
+Print Assumptions C04_src_project_iff.
+
+Theorem C04_src_clip_times_iff : forall s e, Source.Clip__validate_times s e = Ok tt <-> s <= e.
+Proof. exact src_clip_times_iff. Qed.
+Print Assumptions C04_src_clip_times_iff.
+
+Example C04_src_ex :
+  src_clip_eval 1 1 [10; 11]%Z [20]%Z [(Some 20, Some 10); (None, Some 11)]%Z = Ok tt
+  /\ src_clip_eval 1 1 [10; 11]%Z [20]%Z [(Some 20, Some 10); (None, Some 10)]%Z = Err EValue
+  /\ src_clip_eval 1 2 []%Z []%Z [] = Err EValue.
+Proof. vm_compute. repeat split. Qed.
+Print Assumptions C04_src_ex.
